@@ -720,10 +720,13 @@ Theorem json_doc_tree h k d : kres_wf k -> handler_ok h k ->
   json_doc h k d = Some (jprint (json_tree k d)).
 Proof.
   intros Hk Hh.
-  destruct k as [c msg| |n|nx|rf m| |gv fo|v|b|n|t|l|[v|]]; cbn [json_doc json_tree kres_wf handler_ok] in *;
-    try apply error_doc_tree.
+  destruct k as [c msg| |n|nx|rf m| |gv fo|v|b|n|t|l|[v|]]; cbn [json_doc json_tree kres_wf handler_ok] in *.
+  - apply error_doc_tree.
   - rewrite Hh. apply plain_doc_tree. exact Hh.
   - rewrite Hh. apply plain_doc_tree. exact Hh.
+  - apply error_doc_tree.
+  - apply error_doc_tree.
+  - apply error_doc_tree.
   - apply (object_doc_tree gv fo d). exact (proj1 Hk).
   - unfold value_json. generalize (value_jv v). intros j.
     eval_lookup. cbv - [json_string marshal_string app jprint]. rewrite jprint_obj. cbn [jmembers fst snd app].
